@@ -233,7 +233,9 @@ fn emit_urdf(fam: &str, xml: &str, names: Option<[&str; 6]>, expected: Option<&U
         for s in u.sign_corrections { l.i(s as i64); }
         l.j6(&u.from).j6(&u.to).i(u.dof as i64);
     };
-    match expected { Some(u) => { l.n(1); enc_up(&mut l, u); } None => { l.n(0); } }
+    // #2: the description lacks a joint, has a conflicting duplicate or is not XML: an error value is promised
+    let must_err = ["error/missing-joint", "error/conflicting-duplicate", "error/duplicate-adds-limits", "error/truncated", "error/empty"].contains(&fam);
+    match expected { Some(u) => { l.n(1); enc_up(&mut l, u); } None => { l.n(if must_err { 2 } else { 0 }); } }
     l.arrow();
     match catch(AssertUnwindSafe(|| from_urdf(xml.to_string(), &names))) {
         None => { l.s("panic"); }
@@ -295,7 +297,9 @@ fn joint_xml(r: &mut Rng, u: &URDFParameters, lay: &Layout, names: &[String; 6])
 
 fn decorate(r: &mut Rng, k: usize) -> String {
     let n = k + 1;
-    match r.below(8) {
+    match r.below(11) {
+        // literal prefixes that contain the infix text between "joint" and the number
+        8 => format!("arm_joint_a{}", n), 9 => format!("kuka_kr6_joint_a{}", n), 10 => format!("cell_a_joint_a{}", n),
         0 => format!("joint{}", n), 1 => format!("joint_{}", n), 2 => format!("JOINT_{}", n), 3 => format!("${{prefix}}joint_{}", n),
         4 => format!("left_Joint-{}", n), 5 => format!("${{prefix}}JOINT_{}!", n), 6 => format!("robot1_joint_a{}", n), _ => format!("Joint {}", n),
     }
@@ -304,7 +308,8 @@ fn decorate(r: &mut Rng, k: usize) -> String {
 pub fn c20(seed: u64, n: usize) {
     let mut r = Rng::new(seed ^ 0xC20);
     // joint-name simplification against the hand-written equivalent of the regexes
-    let pieces = ["joint", "Joint", "JOINT", "_", "-", "1", "2", "6", "12", "a", "link", "${prefix}", "${p}", "${", "}", "left", "tool0", " ", "!", ".", "x", "jointjoint", "$", "{x}"];
+    let pieces = ["joint", "Joint", "JOINT", "_", "-", "1", "2", "6", "12", "a", "link", "${prefix}", "${p}", "${", "}", "left", "tool0", " ", "!", ".", "x", "jointjoint", "$", "{x}",
+                  "joint_a", "arm_", "kuka_kr6_", "cell_a_", "joint_a1", "_a", "a_"];
     for _ in 0..(2 * n).max(200) {
         let k = 1 + r.below(6);
         let mut s = String::new();
@@ -356,7 +361,17 @@ pub fn c20(seed: u64, n: usize) {
                 1 => { let extra = joints[0].replace("xyz=\"", "xyz=\"9 "); ("conflicting-duplicate", format!("<robot>{}{}</robot>", joints.join(""), extra.replacen("xyz=\"9 ", "xyz=\"", 1).replace("rpy=\"0 0 0\"", "rpy=\"0 0 1\"").replacen("<origin xyz=\"", "<origin xyz=\"7", 1))) }
                 2 => ("truncated", xml[..xml.len() / 2].to_string()),
                 3 => ("non-numeric", xml.replacen("xyz=\"", "xyz=\"abc ", 1)),
-                4 => ("empty", String::new()),
+                4 => {
+                    // a second declaration of a joint with the same geometry that only ADDS limits is a conflicting duplicate
+                    let kk = (0..6).find(|&kk| joints[kk].contains("<limit")).unwrap_or(0);
+                    if joints[kk].contains("<limit") {
+                        let start = joints[kk].find("<limit").unwrap();
+                        let end = joints[kk][start..].find("/>").unwrap() + start + 2;
+                        let without = format!("{}{}", &joints[kk][..start], &joints[kk][end..]);
+                        let mut js = joints.clone(); let with = js[kk].clone(); js[kk] = without;
+                        ("duplicate-adds-limits", format!("<robot>{}{}</robot>", js.join(""), with))
+                    } else { ("empty", String::new()) }
+                }
                 _ => ("two-values", xml.replacen("<origin xyz=\"", "<origin xyz=\"1 ", 1)),
             };
             emit_urdf(&format!("error/{}", damaged.0), &damaged.1, if explicit { Some(nref) } else { None }, None);
